@@ -337,7 +337,7 @@ def _clause_lines(kind, clauses, fnkey, built, default_props):
     for c in clauses:
         cid, expr = c[0], c[1]
         props = list(c[2]) if len(c) > 2 else list(default_props)
-        full = fnkey + '::' + cid
+        full = fnkey + '::' + ('pre.' if kind == 'requires' else '') + cid
         if full in built.clauses:
             raise ExtractError('duplicate clause id %s' % full)
         built.clauses[full] = {'fn': fnkey, 'kind': kind, 'props': props, 'text': expr}
@@ -376,6 +376,24 @@ def build_fn_chunk(chunk, fspec, fnkey, built, cover, relwhere):
         if li >= len(loops):
             raise ExtractError('loop #%d not found in %s' % (li, fnkey))
         p, brace, kw = loops[li]
+        # body suffix (proof block right before the loop body's closing brace); done first so that
+        # the offsets of the opening brace stay valid
+        if ls.get('body_suffix'):
+            tsrc = rsscan.Source('<chunk>', chunk.text())
+            close = tsrc.match_brace(brace)
+            cid = fnkey + '::loop%d.body_suffix' % li
+            built.clauses[cid] = {'fn': fnkey, 'kind': 'proof', 'props': ls.get('props', default_props), 'text': ls['body_suffix']}
+            cl_idx = chunk.line_index(close)
+            cl_off = chunk._offsets()[cl_idx]
+            cl_line = chunk.lines[cl_idx]
+            cpre, cpost = cl_line.text[:close - cl_off], cl_line.text[close - cl_off:]
+            repl = []
+            if cpre.strip():
+                repl.append(Line(cpre, cl_line.origin))
+            for el in ls['body_suffix'].split('\n'):
+                repl.append(Line('      ' + el, ('clause', cid)))
+            repl.append(Line(cpost, cl_line.origin))
+            chunk.lines[cl_idx:cl_idx + 1] = repl
         # body prefix (proof block at start of the loop body)
         body_lines = []
         if cover:
